@@ -334,13 +334,13 @@ def parse_getheaders_payload(payload: bytes) -> dict:
         parsed_payload["hash_count"] = hash_count
         index = 7
     elif hash_count_byte == 254:
-        hash_count = int.from_bytes(payload[7:11], "little")
+        hash_count = int.from_bytes(payload[5:9], "little")
         parsed_payload["hash_count"] = hash_count
-        index = 11
+        index = 9
     elif hash_count_byte == 255:
-        hash_count = int.from_bytes(payload[11:19], "little")
+        hash_count = int.from_bytes(payload[5:13], "little")
         parsed_payload["hash_count"] = hash_count
-        index = 19
+        index = 13
 
     if hash_count > 0:
         block_header_hashes = payload[index : index + hash_count * 32]
